@@ -3520,6 +3520,28 @@ fn find_all_weighted_paths_simple() {
 }
 
 #[test]
+fn find_all_weighted_paths_zero_weight_cycle_terminates() {
+    let engine = GraphEngine::new();
+    let a = engine.create_node("A", HashMap::new()).unwrap();
+    let b = engine.create_node("B", HashMap::new()).unwrap();
+    let c = engine.create_node("C", HashMap::new()).unwrap();
+
+    let mut zero = HashMap::new();
+    zero.insert("weight".to_string(), PropertyValue::Float(0.0));
+    engine.create_edge(a, b, "E", zero.clone(), true).unwrap();
+    engine.create_edge(b, b, "E", zero.clone(), true).unwrap(); // zero-weight self-loop
+    engine.create_edge(b, c, "E", zero.clone(), true).unwrap();
+    engine.create_edge(c, b, "E", zero, true).unwrap(); // zero-weight cycle b -> c -> b
+
+    let result = engine
+        .find_all_weighted_paths(a, c, "weight", None)
+        .unwrap();
+    assert!(result.total_weight.abs() < f64::EPSILON);
+    assert_eq!(result.paths.len(), 1);
+    assert_eq!(result.paths[0].nodes, vec![a, b, c]);
+}
+
+#[test]
 fn find_all_weighted_paths_diamond_equal() {
     // Diamond with equal weights: 2 paths
     let engine = GraphEngine::new();
